@@ -4,7 +4,7 @@
 import os,sys,json,glob,subprocess,tempfile,shutil
 from multiprocessing import Pool
 H='/verif'
-REVERTS={'C12':['revert_F1.diff'],'C46':['revert_F2.diff'],'C50':['revert_F3.diff'],'C10':['revert_F4.diff'],'C33':['revert_F5.diff'],'C56':['revert_F6.diff','revert_F7.diff','revert_F8.diff','revert_F9.diff'],'C15':['revert_F10.diff'],'C35':['revert_F11.diff'],'C01':['revert_F12.diff'],'C41':['revert_F13.diff','revert_F14.diff']}
+REVERTS={'C12':['revert_F1.diff'],'C46':['revert_F2.diff'],'C50':['revert_F3.diff'],'C10':['revert_F4.diff'],'C33':['revert_F5.diff'],'C56':['revert_F6.diff','revert_F7.diff','revert_F8.diff','revert_F9.diff'],'C15':['revert_F10.diff'],'C35':['revert_F11.diff'],'C01':['revert_F12.diff'],'C41':['revert_F13.diff','revert_F14.diff','revert_F15.diff']}
 def jobs():
     js=[]
     for d in sorted(glob.glob(H+'/selftest/C*')):
